@@ -69,6 +69,8 @@ package stream
 //@   ensures#auth err == nil ==> openok(r.a.$key, nonceOf(old(ctr(r.nonce)), (last ? 1 : 0)), sub(old(r.src.$rem), 0, len(old(r.src.$rem)) - len(r.src.$rem)))   [C01 C02 C05]
 //@   ensures#plain err == nil ==> bytes(r.unread) == open(r.a.$key, nonceOf(old(ctr(r.nonce)), (last ? 1 : 0)), sub(old(r.src.$rem), 0, len(old(r.src.$rem)) - len(r.src.$rem)))   [C01 C02 C05]
 //@   ensures#notlast err == nil && !last ==> !openok(r.a.$key, nonceOf(old(ctr(r.nonce)), 1), sub(old(r.src.$rem), 0, ECS)) || openok(r.a.$key, nonceOf(old(ctr(r.nonce)), 0), sub(old(r.src.$rem), 0, ECS))   [C02]
+//@   ensures#acceptsfull (old(r.src.$reliable) && len(old(r.src.$rem)) >= ECS && openok(r.a.$key, nonceOf(old(ctr(r.nonce)), 0), sub(old(r.src.$rem), 0, ECS))) ==> err == nil && !last   [C01 C05 C12]
+//@   ensures#acceptsfullfinal (old(r.src.$reliable) && len(old(r.src.$rem)) >= ECS && !openok(r.a.$key, nonceOf(old(ctr(r.nonce)), 0), sub(old(r.src.$rem), 0, ECS)) && openok(r.a.$key, nonceOf(old(ctr(r.nonce)), 1), sub(old(r.src.$rem), 0, ECS))) ==> err == nil && last   [C01 C05 C12]
 //@   ensures#nonce err == nil ==> ctr(r.nonce) == old(ctr(r.nonce)) + 1 && r.nonce[11] == (last ? 1 : 0) && bytes12(r.nonce)   [C02 C05 C06]
 //@   ensures#range bytes12(r.nonce)
 //@   ensures#frame r.err == old(r.err) && r.src == old(r.src) && r.a == old(r.a) && len(r.unread) <= CS && (err == nil ==> rg(r.unread) == rg(r.buf))
